@@ -156,7 +156,9 @@ def streams(tier, rng):
                 e = math.floor(math.log10(abs(x)))
                 half = Fraction(10) ** (e - P + 1) / 2
                 # allow the rounding of the read-back to the type (one more ulp of the binary format)
-                ok = abs(Fraction(x) - Fraction(y)) <= half * Fraction(1001, 1000) + abs(Fraction(y)) * Fraction(1, 2 ** (23 if kind == 'float' else 52))
+                # ... one unit in the last place of the type: relative for normal values, the absolute spacing for subnormal ones
+                ulp = max(abs(Fraction(y)) * Fraction(1, 2 ** (23 if kind == 'float' else 52)), Fraction(1, 2 ** (149 if kind == 'float' else 1074)))
+                ok = abs(Fraction(x) - Fraction(y)) <= half * Fraction(1001, 1000) + ulp
             if not ok:
                 return [('float', '%s %r emitted as %r decodes to %r: not within the %d emitted digits' % (kind, x, text, y, P))]
         return []
